@@ -10,7 +10,7 @@
 (*               (pleaf / psize: the analysis data LeafOps / MinCost(astsize)) *)
 (*   OpPolicy ("fifo"/"lifo"), OpEager (insert the whole pool up front, or     *)
 (*               only the sides of the asserted equations)                     *)
-EXTENDS EMatchOp, Json
+EXTENDS ApplyOp, Json
 
 CONSTANTS OpTermPool, OpEqPool, OpInsBase, OpMaxEqs, Expected, OpEager,
           OpPatterns,   \* pattern pool (terms with pattern-variable leaves) for MatchRefines; << >> = not asked for
